@@ -83,7 +83,9 @@ def main(argv=None) -> int:
             if not args.no_write:
                 selftest.annotate_evidence(prop, st)
             print(f"[{prop}] self-test: {st['must_fire_ok']}/{st['must_fire']} must-fire variants reported, "
-                  f"{st['silent_ok']}/{st['silent']} behaviour-preserving variants silent")
+                  f"{st['silent_ok']}/{st['silent']} behaviour-preserving variants silent"
+                  + (f", {st['skipped']} not applicable to this tree" if st.get("skipped") else "")
+                  + (f", undecided: {', '.join(st['undecided'])}" if st.get("undecided") else ""))
         return code
     if args.cmd == "all":
         src = args.src or default_src_root()
